@@ -13,6 +13,10 @@ def run(tier, seed):
     run.add_mc("DomCHK N=3 with loops (all DFS / fold orders, termination)", tlc("algo/DomCHK", "MCDomCHK.cfg", workers=6, timeout=900, tag="c16dom3"))
     open(os.path.join(d, "out_MCDomCHK.cfg"), "w").write(base.replace("N = 3", "N = 4").replace("Loops = TRUE", "Loops = %s" % ("TRUE" if th else "FALSE")).replace("PROPERTY Terminates\n", "").replace("FairSpec", "Spec"))
     run.add_mc("DomCHK N=4 %s" % ("with loops" if th else "without loops"), tlc("algo/DomCHK", "out_MCDomCHK.cfg", workers=10, timeout=2400, tag="c16dom4"))
+    if th:
+        # five nodes, at most seven edges: the smallest irreducible graphs that need a third sweep live here
+        open(os.path.join(d, "out_MCDomCHK.cfg"), "w").write(base.replace("N = 3", "N = 5").replace("MaxEdges = 16", "MaxEdges = 7").replace("Loops = TRUE", "Loops = FALSE").replace("PROPERTY Terminates\n", "").replace("FairSpec", "Spec"))
+        run.add_mc("DomCHK N=5, at most 7 edges", tlc("algo/DomCHK", "out_MCDomCHK.cfg", workers=10, timeout=2400, tag="c16dom5"))
     os.remove(os.path.join(d, "out_MCDomCHK.cfg"))
     recs, matrix = sweep(run, "C16", seed, 3, 400 if th else 60, 7 if th else 6)
     run.extra["applicability_matrix"] = matrix
